@@ -15,7 +15,9 @@ import (
 
 	"verif/harness/crossassert"
 	"verif/harness/internal/ev"
+	"verif/harness/internal/kchild"
 	"verif/harness/internal/oracle"
+	"verif/harness/internal/spec"
 )
 
 // C19 — constants and stubs are consistent across build targets.
@@ -295,7 +297,10 @@ func checkC19Transplant(raw json.RawMessage) (ev.Result, error) {
 		useStrace = false
 	}
 	if useStrace {
-		out, err = exec.Command("strace", "-f", "-o", tracePath, "-e", "trace=seccomp,prctl", bin, corpusPath).Output()
+		cmd := exec.Command("strace", "-f", "-o", tracePath, bin, corpusPath)
+		// no asynchronous preemption signals and no garbage collection between the markers
+		cmd.Env = append(os.Environ(), "GODEBUG=asyncpreemptoff=1", "GOGC=off")
+		out, err = cmd.Output()
 	} else {
 		out, err = exec.Command(bin, corpusPath).Output()
 	}
@@ -331,12 +336,42 @@ func checkC19Transplant(raw json.RawMessage) (ev.Result, error) {
 	res := ev.Result{Classes: []string{"transplant"}, Sub: r.Compared + r.Loads, NonTrivial: true}
 	if useStrace {
 		tr, _ := os.ReadFile(tracePath)
-		for _, l := range strings.Split(string(tr), "\n") {
-			if strings.Contains(l, "seccomp(") || strings.Contains(l, "prctl(") {
+		lines := strings.Split(string(tr), "\n")
+		for _, l := range lines {
+			f := strings.Fields(l)
+			if len(f) >= 2 && (strings.HasPrefix(f[1], "seccomp(") || strings.HasPrefix(f[1], "prctl(")) {
 				return ev.Result{}, fmt.Errorf("non-Linux loader stubs issue a system call: %s", l)
 			}
 		}
-		res.Classes = append(res.Classes, "transplant-under-strace")
+		// between the two markers the thread that calls the stubs must not enter the kernel at all
+		tid, inside, sawEnd := "", false, false
+		for _, l := range lines {
+			f := strings.Fields(l)
+			if len(f) < 2 {
+				continue
+			}
+			if strings.HasPrefix(f[1], "close(100001") {
+				tid, inside = f[0], true
+				continue
+			}
+			if inside && f[0] == tid {
+				if strings.HasPrefix(f[1], "close(100002") {
+					inside, sawEnd = false, true
+					continue
+				}
+				if strings.HasPrefix(f[1], "---") || strings.HasPrefix(f[1], "+++") {
+					continue // signal notes are not system calls of the stubs
+				}
+				if f[1] == "<..." && len(f) > 2 && f[2] == "close" {
+					continue // the second half of a marker call that strace printed in two parts
+				}
+				return ev.Result{}, fmt.Errorf("a non-Linux loader stub performed a system call: %s", strings.Join(f[1:], " "))
+			}
+		}
+		if !sawEnd {
+			return ev.Result{}, ev.Inconclusivef("marker system calls not found in the trace")
+		}
+		res.Classes = append(res.Classes, "transplant-under-strace", "no-system-call-between-markers")
 	}
 	return res, nil
 }
@@ -364,4 +399,51 @@ func TestC19Transplant(t *testing.T) {
 		c.Corpus = append(c.Corpus, json.RawMessage(hand))
 	}
 	ev.CheckOne(t, "C19", "transplant", c, checkC19Transplant)
+}
+
+// ---- the same corpus compiled by a linux/386 build and a linux/amd64 build ----
+
+type c19ArchDigestCase struct {
+	Corpus []spec.Policy `json:"corpus"`
+}
+
+func checkC19ArchDigest(raw json.RawMessage) (ev.Result, error) {
+	var c c19ArchDigestCase
+	if err := json.Unmarshal(raw, &c); err != nil {
+		return ev.Result{}, ev.Inconclusivef("bad case: %v", err)
+	}
+	dir, err := os.MkdirTemp(os.Getenv("VERIF_TMP"), "c19digest")
+	if err != nil {
+		return ev.Result{}, ev.Inconclusivef("%v", err)
+	}
+	defer os.RemoveAll(dir)
+	path := filepath.Join(dir, "corpus.json")
+	b, _ := json.Marshal(c.Corpus)
+	os.WriteFile(path, b, 0o644)
+	digests := map[string]string{}
+	for _, name := range []string{"digest", "digest_386"} {
+		bin, err := kchild.Bin(name)
+		if err != nil {
+			return ev.Result{}, ev.Inconclusivef("%v", err)
+		}
+		out, err := exec.Command(bin, path).Output()
+		if err != nil {
+			return ev.Result{}, ev.Inconclusivef("%s: %v", name, err)
+		}
+		for _, f := range strings.Fields(string(out)) {
+			if strings.HasPrefix(f, "programs=") {
+				digests[name] = f
+			}
+		}
+	}
+	if digests["digest"] == "" || digests["digest"] != digests["digest_386"] {
+		return ev.Result{}, fmt.Errorf("the same %d policies (fixed syscall tables) compile to different programs in a linux/amd64 and a linux/386 build of the library: %s vs %s", len(c.Corpus), digests["digest"], digests["digest_386"])
+	}
+	return ev.Result{Classes: []string{"same-programs-from-386-and-amd64-builds"}, NonTrivial: true, Sub: 2 * len(c.Corpus)}, nil
+}
+
+func TestC19ArchDigest(t *testing.T) {
+	ev.Register("C19", "arch-digest", checkC19ArchDigest)
+	seed := int(shardSeed() % 1000000)
+	ev.CheckOne(t, "C19", "arch-digest", c19ArchDigestCase{Corpus: corpusPolicies(ev.Scale(200, 2000), seed)}, checkC19ArchDigest)
 }
